@@ -47,8 +47,9 @@ theorem passLayout_eq (frames : List CF) :
 theorem marshal_reassembles (fb : Builder) (idx : Int) (frames : List CF) (d : Draws) (perm : List Nat)
     (p : List UInt8) (idx' : Int) (hok : FramesOk frames) (hne : frames ≠ [])
     (h : marshalInitial fb idx false frames d perm = .ok (p, idx')) :
-    ∃ cd lo, Reassembled frames lo cd ∧ idx' = idx + 1 ∧
-      builderCallM fb idx (passLayout frames) cd lo d perm = .ok p := by
+    (∃ cd lo, Reassembled frames lo cd ∧ idx' = idx + 1 ∧
+      builderCallM fb idx (passLayout frames) cd lo d perm = .ok p) ∨
+    (Uquic.Gen.Frames.marshalReassembleFatal = false ∧ wireAll frames = some p ∧ idx' = idx + 1) := by
   unfold marshalInitial at h
   cases hw : wireAll frames with
   | none => rw [hw] at h; simp at h
@@ -73,8 +74,17 @@ theorem marshal_reassembles (fb : Builder) (idx : Int) (frames : List CF) (d : D
         rw [hs] at h
         simp only [] at h
         cases hre : reassemble f0.1 (f0 :: rest) [] with
-        | none => rw [hre] at h; simp at h
+        | none =>
+          rw [hre] at h
+          simp only [] at h
+          cases hfat : Uquic.Gen.Frames.marshalReassembleFatal with
+          | true => rw [hfat] at h; simp at h
+          | false =>
+            rw [hfat] at h
+            simp only [Bool.false_eq_true, if_false, Outcome.ok.injEq, Prod.mk.injEq] at h
+            exact Or.inr ⟨rfl, by rw [h.1], h.2.symm⟩
         | some cd =>
+          left
           rw [hre] at h
           have R := reassembled_of_sorted hs hre
           have hlo64 : f0.1 < 18446744073709551615 := by
@@ -230,6 +240,13 @@ theorem builderCallM_carries (fb : Builder) (idx : Int) {frames : List CF} {lo :
     | err e => rw [hs] at h; simp at h
     | panic => rw [hs] at h; simp at h
     | wrap => rw [hs] at h; simp at h
+
+theorem readAll_single {p : List UInt8} {fs : List Frame} (h : readAll [p] = some fs) :
+    readFrames p = some fs := by
+  simp only [readAll] at h
+  cases hr : readFrames p with
+  | none => rw [hr] at h; simp at h
+  | some a => rw [hr] at h; simpa using h
 
 theorem take_drop_take (W : List UInt8) (lo n k m : Nat) (h : k + m ≤ n) :
     (((W.drop lo).take n).drop k).take m = (W.drop (lo + k)).take m := by
